@@ -184,7 +184,8 @@ class CellDriver:
             reserved = [0, 0, 0]
         rank = rng.choice([100, 100, 100, 50, 80, 120, 0])
         adj = rng.choice([0, 0, 10, 20, min(rank, 50)])
-        adj = min(adj, rank)
+        if rng.random() >= 0.15:
+            adj = min(adj, rank)            # (1 allocation in 7: the adjustment may exceed the rank - both are 0..100 by the schema)
         maxutil = rng.choice([None, None, None, 100, 2, 1.5, 1, 0.5, 0])
         traits = 0
         if self.H.trait_bits and rng.random() < 0.2:
